@@ -50,6 +50,15 @@ def cases(rng, tier):
                                        "coeffs": [frac(Fraction(3, 2)), frac(Fraction(-1, 2)), frac(Fraction(1, 4))], "variant": v,
                                        "seed": 11 + len(mode), "drop": mode == "drop", "extra": mode == "extra", "strkeys": False,
                                        "rot_results": 0, "rot_obs": 0, "always_oracle": True})
+    # partitions run through different sampler interfaces (every order of V1 / V2 over three partitions); one outcome under two spellings
+    for vs in (["v1shots", "v2", "v1shots"], ["v2", "v1shots", "v1shots"], ["v1shots", "v1shots", "v2"], ["v2", "v2", "v1shots"]):
+        yield ("reconstruct", {"labels": ["A", "B", "C"], "form": "dict", "nobs": 2, "subobs": [["ZX", "XZ"], ["ZI", "IZ"], ["Y", "Z"]],
+                               "coeffs": [frac(Fraction(3, 2)), frac(Fraction(-1, 2))], "variant": vs[0], "variants": vs, "seed": 21 + len(vs[0]),
+                               "drop": False, "extra": False, "strkeys": False, "rot_results": 0, "rot_obs": 0, "always_oracle": True})
+    for k in range(3):
+        yield ("reconstruct", {"labels": ["A", "B"], "form": "dict", "nobs": 2, "subobs": [["ZX", "XZ"], ["ZI", "IZ"]],
+                               "coeffs": [frac(Fraction(3, 2)), frac(Fraction(-1, 2)), frac(Fraction(1, 4))], "variant": "v1shots", "seed": 31 + k,
+                               "drop": False, "extra": False, "strkeys": True, "alias": True, "rot_results": 0, "rot_obs": 0, "always_oracle": True})
     n = 120 if tier == "quick" else 2500
     for t in range(n):
         nparts = rng.randint(1, 3)
@@ -76,7 +85,8 @@ def cases(rng, tier):
         v = rng.choice(["v1shots", "v1shots", "v1free", "v2"])
         payload = {"labels": labels, "form": form, "nobs": nobs, "subobs": subobs, "coeffs": coeffs,
                    "variant": v, "seed": rng.randrange(1 << 30), "drop": rng.random() < 0.08, "extra": rng.random() < 0.05,
-                   "strkeys": rng.random() < 0.25,
+                   "strkeys": rng.random() < 0.25, "alias": rng.random() < 0.1,
+                   "variants": [rng.choice(["v1shots", "v2"]) for _ in range(nparts)] if (v in ("v1shots", "v2") and rng.random() < 0.2) else None,
                    # the results dict / the observables dict may have been filled in any order of the labels
                    "rot_results": rng.randrange(nparts) if rng.random() < 0.6 else 0,
                    "rot_obs": rng.randrange(nparts) if rng.random() < 0.3 else 0}
@@ -124,15 +134,17 @@ def _build(payload):
     coeffs = [Fraction(c) for c in payload["coeffs"]]
     subobs = {l: PauliList(s) for l, s in zip(labels, payload["subobs"])}
     results, subs = {}, []
-    for l in labels:
+    for li, l in enumerate(labels):
         oc = ObservableCollection(subobs[l])
         G = len(oc.groups)
         exps, mexps = [], []
+        # the partitions of one problem may have been run through different sampler interfaces
+        variant = (payload.get("variants") or [payload["variant"]] * len(labels))[li]
         for i in range(len(coeffs)):
             for k, cog in enumerate(oc.groups):
                 nb = max(1, len(cog.pauli_indices))
                 nqpd = rng.choice([1, 2, 3, 9, 12])
-                if payload["variant"] == "v1free":
+                if variant == "v1free":
                     keys = {rng.randrange(1 << (nb + nqpd)) for _ in range(rng.randint(1, 6))}
                     qd = {kk: Fraction(rng.randint(-8, 16), 8) for kk in sorted(keys)}
                     shots = None
@@ -143,7 +155,7 @@ def _build(payload):
                     for o, q in shots:
                         key = o | (q << nb)
                         qd[key] = qd.get(key, 0) + Fraction(1, ns)
-                if payload["variant"] == "v2":
+                if variant == "v2":
                     nbo, nbq = (nb + 7) // 8, (nqpd + 7) // 8
                     oa = np.array([[(o >> (8 * (nbo - 1 - j))) & 255 for j in range(nbo)] for o, q in shots], dtype=np.uint8)
                     qa = np.array([[(q >> (8 * (nbq - 1 - j))) & 255 for j in range(nbq)] for o, q in shots], dtype=np.uint8)
@@ -159,7 +171,16 @@ def _build(payload):
                         d = {format(kk, "b").zfill(nb + nqpd): v for kk, v in fl.items()}
                     else:
                         d = {hex(kk): v for kk, v in fl.items()}
-                    if payload.get("strkeys") and fmt != "int":
+                    if payload.get("alias") and fl:
+                        # one outcome listed under two spellings (an int and a padded / prefixed string): both weights count
+                        kk0 = sorted(fl)[0]
+                        ints = {(int(kx, 0) if isinstance(kx, str) and kx[:2] in ("0x", "0b") else (int(kx, 2) if isinstance(kx, str) else kx)): kx for kx in d}
+                        key0 = ints[kk0]
+                        w0 = d.pop(key0)
+                        d[kk0] = w0 / 4
+                        d[rng.choice([hex(kk0), "0" + format(kk0, "b").zfill(nb + nqpd), "0b" + format(kk0, "b")])] = w0 * 3 / 4
+                        exps.append(d)
+                    elif payload.get("strkeys") and fmt != "int":
                         exps.append(d)  # raw dict: string keys reach _outcome_to_int
                     else:
                         exps.append(QuasiDistribution(d))
@@ -170,7 +191,7 @@ def _build(payload):
         if payload.get("extra") and exps:
             exps.append(exps[-1])
             mexps.append(mexps[-1])
-        if payload["variant"] == "v2":
+        if variant == "v2":
             results[l] = PrimitiveResult(exps)
         else:
             results[l] = SamplerResult(exps, [{}] * len(exps))
